@@ -32,6 +32,9 @@ type C16Case struct {
 	// InLoop: the print command runs in the second iteration of a loop, after an iteration with another
 	// value and another limit; the limit is an expression over the loop variable
 	InLoop bool `json:"in_loop,omitempty"`
+	// InMsg: the print command is the second placeholder of a translated message whose first
+	// placeholder prints the same value through the same directive with another limit
+	InMsg bool `json:"in_msg,omitempty"`
 }
 
 var c16Pieces = []string{"a", "b", " ", "  ", "\n", "\r\n", "\r", "\t", "&", "<", ">", "\"", "'", "&lt;", "&amp;", "&#39;", "<b>", "</b>", "<a href=\"x\">", "é", "ü", "日本語", "𝄞", "\U0010FFFF", "%", "+", "/", "?", "=", "#", "~", "-", "_", ".", "!", "*", "(", ")", "\\", " ", " ", "</script>", "\x00", "\x01", "\x7f", "word", "averyveryverylongwordwithoutanyspaces", "%41", "%zz", "{", "}", ";", ":", "@", ",", "$", "[", "]", "|", "^", "`"}
@@ -70,6 +73,7 @@ func genC16(t *rapid.T) C16Case {
 		c.Ell = rapid.IntRange(0, 2).Draw(t, "ell")
 	}
 	c.InLoop = !c.JS && rapid.IntRange(0, 3).Draw(t, "inLoop") == 0
+	c.InMsg = !c.JS && !c.InLoop && rapid.IntRange(0, 3).Draw(t, "inMsg") == 0 && !strings.ContainsAny(c.Value.S, "«»") && !strings.Contains(c.Value.S, c16Sep)
 	if rapid.IntRange(0, 4).Draw(t, "chain") == 0 && c.Dir == "truncate" && !c.JS {
 		c.Then = rapid.SampledFrom([]string{"escapeUri", "escapeJsString", "changeNewlineToBr", "escapeHtml"}).Draw(t, "then")
 	}
@@ -98,6 +102,9 @@ func (c C16Case) directives() []ref.Directive {
 func applyGo(c C16Case) (string, error) {
 	if c.InLoop && (c.Dir == "truncate" || c.Dir == "insertWordBreaks") {
 		return applyGoInLoop(c)
+	}
+	if c.InMsg && (c.Dir == "truncate" || c.Dir == "insertWordBreaks") {
+		return applyGoInMsg(c)
 	}
 	p := ref.Program{Files: []ref.File{{Name: "d.soy", Namespace: "d", Autoescape: "false", Templates: []ref.Template{{Name: "t", Params: []ref.ParamDecl{{Name: "x"}},
 		Body: []ref.Cmd{{K: "print", Expr: varE("x"), Directives: c.directives()}}}}}}}
@@ -150,6 +157,40 @@ func applyGoInLoop(c C16Case) (string, error) {
 		return "", fmt.Errorf("render of the loop lost a separator: %q", trunc(rr.out, 300))
 	}
 	return out[i+len(c16Sep):], nil
+}
+
+func applyGoInMsg(c C16Case) (string, error) {
+	decoy := c
+	decoy.Arg = c.Arg + 5
+	if c.Arg > 6 {
+		decoy.Arg = c.Arg / 2
+	}
+	decoy.Then = ""
+	p := ref.Program{Files: []ref.File{{Name: "d.soy", Namespace: "d", Autoescape: "false", Templates: []ref.Template{{Name: "t", Params: []ref.ParamDecl{{Name: "x"}},
+		Body: []ref.Cmd{{K: "msg", Desc: "d", Body: []ref.Cmd{
+			{K: "print", Expr: varE("x"), Directives: decoy.directives()}, {K: "text", Text: c16Sep},
+			{K: "print", Expr: varE("x"), Directives: c.directives()}, {K: "text", Text: c16Sep}}}}}}}}}
+	names, srcs := gen.Sources(&p)
+	cb, err, pn := compileBundle(names, srcs, nil)
+	if err != nil || pn != nil {
+		return "", fmt.Errorf("compile: %v %v", err, pn)
+	}
+	var buf bytes.Buffer
+	var rerr error
+	if pnc := catch(func() {
+		rerr = cb.tofu.NewRenderer("d.t").WithMessages(identityBundle(cb)).Execute(&buf, toDataMap(map[string]ref.Value{"x": c.Value}))
+	}); pnc != nil {
+		return "", fmt.Errorf("render panicked: %v", pnc)
+	}
+	if rerr != nil {
+		return "", fmt.Errorf("render failed: %v", trunc(rerr.Error(), 300))
+	}
+	out := strings.NewReplacer("«", "", "»", "").Replace(buf.String())
+	parts := strings.Split(out, c16Sep)
+	if len(parts) != 3 {
+		return "", fmt.Errorf("render of the message lost a separator: %q", trunc(buf.String(), 300))
+	}
+	return parts[1], nil
 }
 
 func jsStr(s string) string { b, _ := json.Marshal(s); return string(b) }
